@@ -178,3 +178,208 @@ fn result_weight(case: &Case) -> usize {
     }
     w
 }
+
+// ---------------------------------------------------------------------------------------
+// structure-aware target: fuzzer bytes are decoded into a *plan* (template pool, calls,
+// packets, sets, per-record entropy) by a hand-written reader and built into a conformant
+// stream by the same builder the proptest generators use.
+//
+// (proptest's pass-through RNG was tried first and abandoned: every `prop_oneof!` and
+// `prop_flat_map` forks the RNG by halving the remaining input, so the stream is used up
+// after a few dozen choices, after which it yields zeros and rand's uniform sampling
+// rejects forever.)
+// ---------------------------------------------------------------------------------------
+
+use crate::gen::{self, BuildOpts, PktPlan, Pool, SetPlan, StreamPlan};
+use crate::wire::{Def, Proto};
+
+struct Rd<'a> {
+    d: &'a [u8],
+    p: usize,
+}
+impl<'a> Rd<'a> {
+    fn u8(&mut self) -> u8 {
+        let v = self.d.get(self.p).copied().unwrap_or(0);
+        self.p += 1;
+        v
+    }
+    fn below(&mut self, n: usize) -> usize {
+        if n <= 1 {
+            0
+        } else {
+            self.u8() as usize * n >> 8
+        }
+    }
+    fn u32(&mut self) -> u32 {
+        u32::from_be_bytes([self.u8(), self.u8(), self.u8(), self.u8()])
+    }
+    fn bytes(&mut self, n: usize) -> Vec<u8> {
+        (0..n).map(|_| self.u8()).collect()
+    }
+    fn left(&self) -> usize {
+        self.d.len().saturating_sub(self.p)
+    }
+}
+
+fn rd_def(r: &mut Rd, proto: Proto, options: bool, max_fields: usize) -> Def {
+    let n = 1 + r.below(max_fields);
+    match proto {
+        Proto::V9 => {
+            if options {
+                let sn = 1 + r.below(2);
+                let mut fields: Vec<crate::wire::FieldSpec> = (0..sn)
+                    .map(|_| crate::wire::FieldSpec { ie: 1 + r.below(5) as u16, len: 1 + r.below(4) as u16, ent: None })
+                    .collect();
+                for _ in 0..n.min(5) {
+                    let (a, b, c) = (r.u8(), r.u8(), r.u8());
+                    fields.push(gen::v9_field_pub(a, b, c));
+                }
+                Def { kind: crate::wire::Kind::Options, scope_n: sn as u16, fields }
+            } else {
+                let fields = (0..n).map(|_| { let (a, b, c) = (r.u8(), r.u8(), r.u8()); gen::v9_field_pub(a, b, c) }).collect();
+                Def { kind: crate::wire::Kind::Plain, scope_n: 0, fields }
+            }
+        }
+        Proto::Ipfix => {
+            let mut fields: Vec<crate::wire::FieldSpec> =
+                (0..n).map(|_| { let (a, b, c, d) = (r.u8(), r.u8(), r.u8(), r.u8()); gen::ipfix_field_pub(a, b, c, d) }).collect();
+            gen::fix_zero_len_pub(&mut fields);
+            let sc = r.u8() as usize;
+            Def {
+                kind: if options { crate::wire::Kind::Options } else { crate::wire::Kind::Plain },
+                scope_n: if options { 1 + (sc % n.min(2)) as u16 } else { 0 },
+                fields,
+            }
+        }
+    }
+}
+
+fn rd_pool(r: &mut Rd, mixed: bool) -> Pool {
+    let all = [256u16, 257, 258, 259, 300, 1024, 4096, 65535, 511, 260];
+    let n = 2 + r.below(3);
+    let start = r.below(all.len());
+    let ids: Vec<u16> = (0..n).map(|i| all[(start + i * 3) % all.len()]).collect();
+    let mk = |proto: Proto, r: &mut Rd| -> Vec<Vec<Def>> {
+        (0..n)
+            .map(|_| {
+                let k = r.u8();
+                let alts = 1 + r.below(3);
+                let mut defs: Vec<Def> = (0..alts)
+                    .map(|j| {
+                        let is_opt = if mixed { (k >> (2 * j)) & 3 == 0 } else { k % 4 == 0 };
+                        rd_def(r, proto, is_opt, 8)
+                    })
+                    .collect();
+                for j in 1..defs.len() {
+                    let (d, pos, w) = (r.u8(), r.u8(), r.u8());
+                    if d < 150 && defs[0].kind == defs[j].kind {
+                        defs[j] = gen::vary_pub(proto, &defs[0], &defs[j], d % 5, pos, w);
+                    }
+                }
+                defs
+            })
+            .collect()
+    };
+    let v9 = mk(Proto::V9, r);
+    let ipfix = mk(Proto::Ipfix, r);
+    Pool { ids, v9, ipfix }
+}
+
+fn rd_sets(r: &mut Rd) -> Vec<SetPlan> {
+    let n = 1 + r.below(5);
+    (0..n)
+        .map(|_| {
+            if r.u8() < 80 {
+                let k = 1 + r.below(3);
+                SetPlan::Tpl((0..k).map(|_| (r.u8(), r.u8())).collect(), r.u8())
+            } else {
+                let id = r.u8();
+                let nrec = r.below(6);
+                let recs = (0..nrec).map(|_| { let l = r.below(14); r.bytes(l) }).collect();
+                SetPlan::Data(id, recs, r.u8())
+            }
+        })
+        .collect()
+}
+
+fn rd_packet(r: &mut Rd, mix: (u16, u16)) -> PktPlan {
+    let sel = r.u8() as u16;
+    if sel < mix.0 {
+        let v7 = r.u8() & 1 == 1;
+        let hdr = r.bytes(20);
+        let n = r.below(3);
+        PktPlan::Fixed { v7, hdr, recs: (0..n).map(|_| r.bytes(52)).collect() }
+    } else if sel < mix.1 {
+        PktPlan::V9 { hdr: [r.u32(), r.u32(), r.u32(), r.u32()], sets: rd_sets(r) }
+    } else {
+        PktPlan::Ipfix { hdr: [r.u32(), r.u32(), r.u32()], sets: rd_sets(r) }
+    }
+}
+
+/// bytes -> case for property `id`
+pub fn plan_case(id: &str, data: &[u8]) -> Option<Case> {
+    let mut r = Rd { d: data, p: 0 };
+    let mixed = matches!(id, "C06");
+    // (below .0: V5/V7, below .1: V9, else IPFIX); C04/C05 keep to their own protocol so that
+    // the other protocol's listed findings do not surface under the wrong property
+    let mix: (u16, u16) = match id {
+        "C04" | "C09" => (20, 256),
+        "C05" | "C10" => (20, 20),
+        _ => (40, 148),
+    };
+    let pool = rd_pool(&mut r, mixed);
+    let mut calls: Vec<Vec<PktPlan>> = vec![];
+    let mut parsers: Vec<usize> = vec![];
+    let n_calls = if id == "C11" { 1 } else { 1 + r.below(5) };
+    for _ in 0..n_calls {
+        if r.left() == 0 && !calls.is_empty() {
+            break;
+        }
+        let n_pk = if id == "C11" { 1 + r.below(7) } else { 1 + r.below(3) };
+        parsers.push((r.u8() & 1) as usize);
+        calls.push((0..n_pk).map(|_| rd_packet(&mut r, mix)).collect());
+    }
+    let by_flowsets = matches!(id, "C06" | "C11" | "C14");
+    let opts = match id {
+        "C06" | "C14" => BuildOpts { count_by_flowsets: true, ..BuildOpts::STRICT },
+        "C11" => BuildOpts { count_by_flowsets: true, ..BuildOpts::WIDE },
+        _ => BuildOpts::WIDE,
+    };
+    let _ = by_flowsets;
+    let built = gen::build(&StreamPlan { pool, calls }, &opts);
+    let mut case = Case { allowed: vec![crate::engine::DEFAULT_ALLOWED.to_vec(); 2], calls: built.calls, params: BTreeMap::new() };
+    if id == "C06" {
+        for (c, p) in case.calls.iter_mut().zip(parsers.iter()) {
+            c.parser = *p;
+        }
+    }
+    if id == "C11" {
+        case.allowed.truncate(1);
+    }
+    if case.calls.iter().all(|c| c.packets.is_empty()) {
+        return None;
+    }
+    Some(case)
+}
+
+/// fuzz_plan: the property is chosen with NFV_FUZZ_PROPS (first entry); the oracle is the
+/// property's own.
+pub fn run_plan(data: &[u8]) {
+    static HOOK: OnceLock<()> = OnceLock::new();
+    HOOK.get_or_init(crate::engine::install_quiet_panic_hook);
+    let id = selected().first().cloned().unwrap_or_else(|| "C05".to_string());
+    let Some(case) = plan_case(&id, data) else { return };
+    let oracle: fn(&Case) -> Outcome = match id.as_str() {
+        "C04" => props::c04::oracle,
+        "C05" => props::c05::oracle,
+        "C06" => props::c06::oracle,
+        "C09" => props::reexport::oracle_c09,
+        "C10" => props::reexport::oracle_c10,
+        "C11" => props::c11::oracle,
+        "C14" => props::c14::oracle,
+        "C16" => props::c16::oracle,
+        _ => return,
+    };
+    let o = crate::engine::guarded(&oracle, &case);
+    settle(&id, o, &case);
+}
